@@ -111,19 +111,22 @@ PosInside(L, l, c) ==
 MsgBlame(j, lens, m) ==
   LET known == j.seen \cup {Prelude}
       readable == j.readok \cup {Prelude}
-  IN (IF m.file \notin known THEN {"WF.file-known"} ELSE {})
-     \cup (IF m.syn THEN {"WF.synthetic-location"} ELSE {})
+      \* which diagnostic it is (first words of the message, digits removed) - only used to name the
+      \* finding precisely: "WF.synthetic-location|Potential range of expression"
+      what == IF "what" \in DOMAIN m /\ m.what # "" THEN "|" \o m.what ELSE ""
+  IN (IF m.file \notin known THEN {"WF.file-known" \o what} ELSE {})
+     \cup (IF m.syn THEN {"WF.synthetic-location" \o what} ELSE {})
      \cup (IF m.file \in known /\ ~m.syn THEN
              IF m.file \in readable THEN
                IF ~HasLens(lens, m.file) THEN {"WF.file-known"}
                ELSE LET L == LensOf(lens, m.file) IN
                     (IF PosInside(L, m.l1, m.c1) /\ PosInside(L, m.l2, m.c2)
-                     THEN {} ELSE {"WF.position-inside-file"})
+                     THEN {} ELSE {"WF.position-inside-file" \o what})
                     \cup (IF m.l1 < m.l2 \/ (m.l1 = m.l2 /\ m.c1 <= m.c2)
                           THEN {} ELSE {"WF.start-after-end"})
              ELSE (* a file that could not be read has only the position 1:1 *)
                IF m.l1 = 1 /\ m.c1 = 1 /\ m.l2 = 1 /\ m.c2 = 1 THEN {}
-               ELSE {"WF.position-inside-file"}
+               ELSE {"WF.position-inside-file" \o what}
            ELSE {})
 
 ErrorsBlame(j, lens, errors) ==
